@@ -313,7 +313,9 @@ func lexText(l *lexer) stateFn {
 			break
 		} else {
 			l.pos += Pos(i)
-			if strings.HasPrefix(l.input[l.pos:], l.leftDelim) {
+			// a comment marker that begins with the action delimiter ("{{!", "<%#") is the longer match
+			isComment := len(l.leftComment) > len(l.leftDelim) && strings.HasPrefix(l.input[l.pos:], l.leftComment)
+			if !isComment && strings.HasPrefix(l.input[l.pos:], l.leftDelim) {
 				ld := Pos(len(l.leftDelim))
 				trimLength := Pos(0)
 				if strings.HasPrefix(l.input[l.pos+ld:], leftTrimMarker) {
